@@ -345,7 +345,8 @@ theorem read_block_iff_disabled {w : World} {c : TCtl} {li : Nat} {st : RwSt} {p
     (hcv : (s.th (bodyOf w w.tid)).cvNotified = none)
     (hop : SC.opOf p s (bodyOf w w.tid) = some (.read li)) :
     w.runOp c (.read li) =
-      (w.setStage 1).branch (w.rwObj li) .rwRead (block := !(SC.enabled p s (bodyOf w w.tid))) := by
+      (w.setStage 1).branch (w.rwObj li) .rwRead (block := !(SC.enabled p s (bodyOf w w.tid)))
+        (wait := true) := by
   rw [SC_enabled_read hv hst hfin hw hcv hop, (hrel li).1, (absRw_of h).1, runOp_read]
   simp only [hs, getRw_of h, bind, Except.bind]
   rcases st.lock with _ | ⟨rs | x⟩ <;> rfl
@@ -359,7 +360,8 @@ theorem write_block_iff_disabled {w : World} {c : TCtl} {li : Nat} {st : RwSt} {
     (hcv : (s.th (bodyOf w w.tid)).cvNotified = none)
     (hop : SC.opOf p s (bodyOf w w.tid) = some (.write li)) :
     w.runOp c (.write li) =
-      (w.setStage 1).branch (w.rwObj li) .rwWrite (block := !(SC.enabled p s (bodyOf w w.tid))) := by
+      (w.setStage 1).branch (w.rwObj li) .rwWrite (block := !(SC.enabled p s (bodyOf w w.tid)))
+        (wait := true) := by
   rw [SC_enabled_write hv hst hfin hw hcv hop, ← lock_isNone_eq h hwf hrel, runOp_write]
   simp only [hs, getRw_of h, bind, Except.bind]
   cases st.lock <;> rfl
